@@ -1,3 +1,4 @@
+import copy
 import functools
 import collections
 
@@ -66,7 +67,9 @@ def get_new_fields(resource, fields):
             )
             new_fields.append(target)
         elif isinstance:
-            new_fields.append(target)
+            # one descriptor per resource: a shared dict would make a later change to the field
+            # in one resource (set_type, rename_fields ...) show up in all of them
+            new_fields.append(copy.deepcopy(target))
     return new_fields
 
 
